@@ -12,6 +12,16 @@
  *   <P> <databytes|-1> <time> <host> <ip> <info> <localhost> <localip> <relayclient> <qqscript> <wfault> <chunk> <payload...>
  * and the harness answers with the same fields followed by
  *   = <daemon exit status> <bytes written to fd 1> <pids of the queue runs> <nrec> (<fd0 bytes> <fd1 bytes>)*   (what each stand-in run received)
+ *
+ * Real-queue leg: a case whose protocol letter is in lower case (m / q / s) runs the same daemon code with QMAILQUEUE =
+ * harness/c07_rqq.c, i.e. the UNMODIFIED qmail-queue.c main() working on a private queue directory (pid mess/0..N-1 intd
+ * todo lock under the temporary home).  The <qqscript> field is ignored on input; on output it holds what the queue
+ * program did ("<exit>,0,-" per run) and the line continues after the records with
+ *   + <nruns> (<exit|-1> <committed 0|1> <mess file bytes> <todo file bytes>)* <stray todo entries>
+ * where "committed" means todo/<inode> exists after the daemon and all its children are gone.
+ *
+ * Before a case runs, its input fields are written to the file named by C07_CUR (if set) and the file is removed at a clean
+ * end: a harness killed by ASan/UBSan inside the daemon's code leaves the killing case there for checks/c07.py.
  */
 #ifndef C07_COMMON_H
 #define C07_COMMON_H
@@ -22,6 +32,8 @@
 #include <signal.h>
 #include <sys/wait.h>
 #include <sys/stat.h>
+#include <dirent.h>
+#include <ctype.h>
 
 #define REC_FD 100
 #define NENV 6
@@ -29,6 +41,7 @@ static const char *c07_envname[NENV] = { "TCPREMOTEHOST", "TCPREMOTEIP", "TCPREM
 
 char auto_qmail[512];          /* replaces auto_qmail.o */
 static char c07_home[400];
+static char *c07_qqbin, *c07_rqqbin, *c07_curfile; static int c07_split;
 
 /* ---- scripted world */
 static const unsigned char *c07_in; static size_t c07_in_n, c07_in_pos; static int c07_chunk;
@@ -102,17 +115,60 @@ static void c07_init(void) {
   if (fd != REC_FD) close(fd);
   const char *qqp = getenv("C07_QQBIN");
   if (!qqp) { fprintf(stderr, "C07_QQBIN not set\n"); exit(2); }
+  c07_qqbin = strdup(qqp);
   setenv("QMAILQUEUE", qqp, 1);
+  /* the queue directory of the real-queue leg */
+  c07_rqqbin = getenv("C07_RQQBIN") ? strdup(getenv("C07_RQQBIN")) : 0;
+  c07_split = getenv("C07_SPLIT") ? atoi(getenv("C07_SPLIT")) : 23;
+  static const char *qd[] = { "queue", "queue/pid", "queue/intd", "queue/todo", "queue/lock", "queue/mess" };
+  for (int i = 0; i < 6; i++) { snprintf(p, sizeof p, "%s/%s", c07_home, qd[i]); mkdir(p, 0700); }
+  for (int i = 0; i < c07_split; i++) { snprintf(p, sizeof p, "%s/queue/mess/%d", c07_home, i); mkdir(p, 0700); }
+  setenv("C07_HOME", c07_home, 1);
+  c07_curfile = getenv("C07_CUR");
 }
 static void c07_fini(void) {
   char cmd[700];
   fflush(h_out);
+  if (c07_curfile) unlink(c07_curfile);
   snprintf(cmd, sizeof cmd, "rm -rf '%s'", c07_home);
   if (c07_home[0]) system(cmd);
 }
 
+static int c07_real(const c07_case *c) { return islower((unsigned char)c->proto); }
+static void c07_print_case(FILE *f, const c07_case *c) {
+  fprintf(f, "%c %ld %ld", c->proto, c->databytes, c->now);
+  for (int i = 0; i < NENV; i++) fprintf(f, " %s", c->env[i]);
+  fprintf(f, " %s %ld %d", c07_real(c) ? "0,0,-" : c->qq, c->wfault, c->chunk);
+  for (int i = 0; i < c->npay; i++) fprintf(f, " %s", c->pay[i]);
+}
+/* empty the queue directory of the real-queue leg */
+static void c07_qclean_dir(const char *sub) {
+  char p[700]; snprintf(p, sizeof p, "%s/queue/%s", c07_home, sub);
+  DIR *d = opendir(p); if (!d) return;
+  for (struct dirent *e; (e = readdir(d)); ) {
+    if (e->d_name[0] == '.') continue;
+    char f[1000]; snprintf(f, sizeof f, "%s/%s", p, e->d_name); unlink(f);
+  }
+  closedir(d);
+}
+static void c07_qclean(void) {
+  c07_qclean_dir("pid"); c07_qclean_dir("intd"); c07_qclean_dir("todo");
+  for (int i = 0; i < c07_split; i++) { char s[32]; snprintf(s, sizeof s, "mess/%d", i); c07_qclean_dir(s); }
+}
+static unsigned char *c07_slurp(const char *path, size_t *n) {
+  *n = 0; int fd = open(path, O_RDONLY); if (fd < 0) return 0;
+  off_t sz = lseek(fd, 0, SEEK_END); unsigned char *b = malloc(sz + 1);
+  if (pread(fd, b, sz, 0) != sz) { perror("slurp"); exit(2); }
+  close(fd); *n = sz; return b;
+}
+
 static void c07_setup(const c07_case *c, const unsigned char *in, size_t n) {
   static unsigned char tmp[70000];
+  if (c07_curfile) { FILE *f = fopen(c07_curfile, "w"); if (f) { c07_print_case(f, c); fputc('\n', f); fclose(f); } }
+  if (c07_real(c)) {
+    if (!c07_rqqbin) { fprintf(stderr, "C07_RQQBIN not set\n"); exit(2); }
+    setenv("QMAILQUEUE", c07_rqqbin, 1); c07_qclean();
+  } else setenv("QMAILQUEUE", c07_qqbin, 1);
   for (int i = 0; i < NENV; i++) {
     if (c->env[i][0] == '~') unsetenv(c07_envname[i]);
     else { size_t l = c07_unhex(c->env[i], tmp); tmp[l] = 0; setenv(c07_envname[i], (char *)tmp, 1); }
@@ -131,29 +187,88 @@ static void c07_finish(const c07_case *c, int exitcode) {
   int ofd = fileno(h_out);
   for (int fd = 3; fd < 64; fd++) if (fd != ofd) close(fd);
   while (waitpid(-1, 0, 0) > 0) ;
+  /* records */
+  off_t sz = lseek(REC_FD, 0, SEEK_END);
+  unsigned char *r = malloc(sz + 1);
+  if (pread(REC_FD, r, sz, 0) != sz) { perror("rec read"); exit(2); }
+  if (!c07_real(c)) {
+    fprintf(h_out, "%c %ld %ld", c->proto, c->databytes, c->now);
+    for (int i = 0; i < NENV; i++) fprintf(h_out, " %s", c->env[i]);
+    fprintf(h_out, " %s %ld %d", c->qq, c->wfault, c->chunk);
+    for (int i = 0; i < c->npay; i++) fprintf(h_out, " %s", c->pay[i]);
+    fprintf(h_out, " = %d ", exitcode); h_hex(c07_outb.p, c07_outb.n);
+    fputc(' ', h_out);
+    if (!c07_npid) fputc('-', h_out);
+    for (int i = 0; i < c07_npid; i++) fprintf(h_out, "%s%ld", i ? "," : "", c07_pids[i]);
+    int nrec = 0; off_t pos = 0;
+    while (pos + 9 <= sz && r[pos] == 'R') { uint32_t a, b; memcpy(&a, r + pos + 1, 4); memcpy(&b, r + pos + 5 + a, 4); pos += 9 + a + b; nrec++; }
+    fprintf(h_out, " %d", nrec);
+    pos = 0;
+    for (int k = 0; k < nrec; k++) {
+      uint32_t a, b; memcpy(&a, r + pos + 1, 4); memcpy(&b, r + pos + 5 + a, 4);
+      fputc(' ', h_out); h_hex(r + pos + 5, a); fputc(' ', h_out); h_hex(r + pos + 9 + a, b);
+      pos += 9 + a + b;
+    }
+    fputc('\n', h_out);
+    free(r);
+    return;
+  }
+  /* real-queue leg: one record per run of harness/c07_rqq.c:  'R' u32 n0 <fd0> u32 n1 <fd1> 'X' u32 exit u32 pid u64 inode */
+  struct { int have; uint32_t code; unsigned long long ino; const unsigned char *f0, *f1; uint32_t n0, n1; } run[64];
+  memset(run, 0, sizeof run);
+  for (off_t pos = 0; pos + 9 <= sz && r[pos] == 'R'; ) {
+    uint32_t a, b, code, pid; unsigned long long ino;
+    memcpy(&a, r + pos + 1, 4); memcpy(&b, r + pos + 5 + a, 4);
+    const unsigned char *x = r + pos + 9 + a + b;
+    if (x + 17 > r + sz || x[0] != 'X') break;
+    memcpy(&code, x + 1, 4); memcpy(&pid, x + 5, 4); memcpy(&ino, x + 9, 8);
+    for (int i = 0; i < c07_npid; i++) if ((long)pid == c07_pids[i] && !run[i].have) {
+      run[i].have = 1; run[i].code = code; run[i].ino = ino; run[i].f0 = r + pos + 5; run[i].n0 = a; run[i].f1 = r + pos + 9 + a; run[i].n1 = b; break;
+    }
+    pos += 9 + a + b + 17;
+  }
   fprintf(h_out, "%c %ld %ld", c->proto, c->databytes, c->now);
   for (int i = 0; i < NENV; i++) fprintf(h_out, " %s", c->env[i]);
-  fprintf(h_out, " %s %ld %d", c->qq, c->wfault, c->chunk);
+  fputc(' ', h_out);
+  if (!c07_npid) fputs("0,0,-", h_out);
+  for (int i = 0; i < c07_npid; i++) fprintf(h_out, "%s%d,0,-", i ? ";" : "", run[i].have ? (int)run[i].code : 111);
+  fprintf(h_out, " %ld %d", c->wfault, c->chunk);
   for (int i = 0; i < c->npay; i++) fprintf(h_out, " %s", c->pay[i]);
   fprintf(h_out, " = %d ", exitcode); h_hex(c07_outb.p, c07_outb.n);
   fputc(' ', h_out);
   if (!c07_npid) fputc('-', h_out);
   for (int i = 0; i < c07_npid; i++) fprintf(h_out, "%s%ld", i ? "," : "", c07_pids[i]);
-  /* records */
-  off_t sz = lseek(REC_FD, 0, SEEK_END);
-  unsigned char *r = malloc(sz + 1);
-  if (pread(REC_FD, r, sz, 0) != sz) { perror("rec read"); exit(2); }
-  int nrec = 0; off_t pos = 0;
-  while (pos + 9 <= sz && r[pos] == 'R') { uint32_t a, b; memcpy(&a, r + pos + 1, 4); memcpy(&b, r + pos + 5 + a, 4); pos += 9 + a + b; nrec++; }
-  fprintf(h_out, " %d", nrec);
-  pos = 0;
-  for (int k = 0; k < nrec; k++) {
-    uint32_t a, b; memcpy(&a, r + pos + 1, 4); memcpy(&b, r + pos + 5 + a, 4);
-    fputc(' ', h_out); h_hex(r + pos + 5, a); fputc(' ', h_out); h_hex(r + pos + 9 + a, b);
-    pos += 9 + a + b;
+  fprintf(h_out, " %d", c07_npid);
+  for (int i = 0; i < c07_npid; i++) { fputc(' ', h_out); h_hex(run[i].f0, run[i].n0); fputc(' ', h_out); h_hex(run[i].f1, run[i].n1); }
+  /* what is in the queue directory now */
+  fprintf(h_out, " + %d", c07_npid);
+  int ncommitted = 0;
+  for (int i = 0; i < c07_npid; i++) {
+    char p[700]; size_t mn = 0, tn = 0; unsigned char *mb = 0, *tb = 0; int committed = 0;
+    if (run[i].have && run[i].ino) {
+      snprintf(p, sizeof p, "%s/queue/todo/%llu", c07_home, run[i].ino);
+      /* inode numbers are reused within a session (a run that cleaned up frees its number for the next one): the entry belongs
+         to this run only if it carries this run's pid ("u<uid>\0p<pid>\0...") */
+      tb = c07_slurp(p, &tn);
+      if (tb) { char want[40]; int wl = snprintf(want, sizeof want, "p%ld", c07_pids[i]);
+        size_t z = 0; while (z < tn && tb[z]) z++;
+        committed = z + 1 + wl + 1 <= tn && !memcmp(tb + z + 1, want, wl) && tb[z + 1 + wl] == 0;
+        if (!committed) { free(tb); tb = 0; tn = 0; } }
+      if (committed) {
+        ncommitted++;
+        snprintf(p, sizeof p, "%s/queue/mess/%llu/%llu", c07_home, run[i].ino % (unsigned long long)c07_split, run[i].ino); mb = c07_slurp(p, &mn);
+      }
+    }
+    fprintf(h_out, " %d %d ", run[i].have ? (int)run[i].code : -1, committed);
+    h_hex(mb, mn); fputc(' ', h_out); h_hex(tb, tn);
+    free(mb); free(tb);
   }
-  fputc('\n', h_out);
+  { char p[700]; int ntodo = 0; snprintf(p, sizeof p, "%s/queue/todo", c07_home);
+    DIR *d = opendir(p);
+    if (d) { for (struct dirent *e; (e = readdir(d)); ) if (e->d_name[0] != '.') ntodo++; closedir(d); }
+    fprintf(h_out, " %d\n", ntodo - ncommitted); }
   free(r);
+  c07_qclean();
 }
 
 /* parse a case line (fields split in place); returns 0 on failure */
@@ -218,6 +333,47 @@ static void c07_ns(hbuf *b, const void *p, size_t n) {
   hbuf_add(b, l, k); if (n) hbuf_add(b, p, n); hbuf_add(b, ",", 1);
 }
 
-static uint64_t c07_id; static int c07_shard, c07_nshards;
+/* ---- every byte value in every peer-supplied string: TCPREMOTEHOST, TCPREMOTEIP, TCPREMOTEINFO, TCPLOCALHOST, TCPLOCALIP (with
+ * TCPLOCALHOST unset) and - SMTP - the HELO / EHLO argument.  Variant k of C07_NPEERV:
+ *   k < 256            every string is the single byte k (HELO: the byte twice, so that it differs from TCPREMOTEHOST and is shown)
+ *   then 6 x 64        string number f is  'p' j j+64 j+128 j+192 'q'  (four byte values inside a longer string), the others ordinary
+ *   then 6             string number f holds all of 1..255
+ * A NUL ends a C string (the environment cannot hold one; the driver applies the same cut), an LF would end the SMTP command: in the
+ * HELO argument 10 is replaced by 11.  *helo: NULL or a malloc'ed hex string ("!" in front = EHLO). */
+#define C07_NPEERV (256 + 6 * 64 + 6)
+#define C07_PEER_HELO_ONLY(k) (((k) >= 256 + 5 * 64 && (k) < 256 + 6 * 64) || (k) == 256 + 6 * 64 + 5)
+static void c07_peer_variant(c07_case *c, char proto, unsigned k, char **helo) {
+  unsigned char v[6][260]; size_t n[6]; int set[6] = { 0, 0, 0, 0, 0, 0 };
+  c07_defaults(c, proto, k);
+  if (k < 256) { for (int f = 0; f < 6; f++) { v[f][0] = v[f][1] = (unsigned char)k; n[f] = f == 5 ? 2 : 1; set[f] = 1; } }
+  else if (k < 256 + 6 * 64) { unsigned f = (k - 256) / 64, j = (k - 256) % 64;
+    v[f][0] = 'p'; for (int i = 0; i < 4; i++) v[f][1 + i] = (unsigned char)(j + 64 * i); v[f][5] = 'q'; n[f] = 6; set[f] = 1; }
+  else { unsigned f = k - 256 - 6 * 64; for (int i = 0; i < 255; i++) v[f][i] = (unsigned char)(i + 1); n[f] = 255; set[f] = 1; }
+  for (int f = 0; f < 5; f++) if (set[f]) { free(c->env[f]); c->env[f] = c07_hexdup(v[f], n[f]); }
+  if (set[4] && !set[3]) { free(c->env[3]); c->env[3] = strdup("~"); }      /* TCPLOCALIP is used only when TCPLOCALHOST is unset */
+  if (k < 256 && (k & 1)) { free(c->env[3]); c->env[3] = strdup("~"); }
+  *helo = 0;
+  if (set[5]) {
+    for (size_t i = 0; i < n[5]; i++) if (v[5][i] == '\n') v[5][i] = 11;
+    char *h = c07_hexdup(v[5], n[5]);
+    if (k & 2) { *helo = malloc(strlen(h) + 2); sprintf(*helo, "!%s", h); free(h); } else *helo = h;
+  }
+}
+
+/* ---- address lengths: 0..1005 coarsely, every length around the limits and buffer sizes (ssout 256, 900, 1000, 1003, qmail.c's 1024) */
+static int c07_addrlen(int i) {      /* i-th length of the sweep, -1 at the end */
+  static int tab[200], n = 0;
+  if (!n) {
+    for (int l = 0; l <= 2; l++) tab[n++] = l;
+    for (int l = 50; l <= 850; l += 50) tab[n++] = l;
+    for (int l = 250; l <= 260; l++) tab[n++] = l;
+    for (int l = 890; l <= 910; l++) tab[n++] = l;
+    for (int l = 990; l <= 1010; l++) tab[n++] = l;
+    for (int l = 1018; l <= 1030; l++) tab[n++] = l;
+  }
+  return i < n ? tab[i] : -1;
+}
+
+static uint64_t c07_id; static int c07_shard, c07_nshards, c07_thorough;
 static int c07_mine(void) { return (int)(c07_id++ % (uint64_t)c07_nshards) == c07_shard; }
 #endif
